@@ -375,14 +375,16 @@ def run(ctx: Context) -> None:
         ok = False
         if len(ed) == 1:
             c = ed[0]
-            a1 = flow.resolve(c.args[1]) if len(c.args) > 1 else None
-            ok = (len(c.args) == 3 and isinstance(a1, ast.Call) and (callee(ctx, ep, a1) or '').endswith('read_csv')
-                  and norm_text(a1.args[0]) == 'options.points' and norm_text(c.args[2]) == 'options.coordinate_columns'
+            from .common import arg_or_kw as _aok
+            a0, a1r, a2 = _aok(c, 0, 'dataset'), _aok(c, 1, 'dataframe'), _aok(c, 2, 'coordinate_columns')
+            a1 = flow.resolve(a1r) if a1r is not None else None
+            ok = (a0 is not None and a2 is not None and isinstance(a1, ast.Call) and (callee(ctx, ep, a1) or '').endswith('read_csv')
+                  and norm_text(a1.args[0]) == 'options.points' and norm_text(a2) == 'options.coordinate_columns'
                   and norm_text(kwarg(c, 'point_dimension') or ast.Constant(None)) == 'options.point_dimension'
                   and norm_text(kwarg(c, 'missing_points') or ast.Constant(None)) == 'options.missing_points'
-                  and flow.reaches(c.args[0], lambda n: isinstance(n, ast.Call) and (callee(ctx, ep, n) or '').endswith('open_dataset')
+                  and flow.reaches(a0, lambda n: isinstance(n, ast.Call) and (callee(ctx, ep, n) or '').endswith('open_dataset')
                                    and norm_text(n.args[0]) == 'options.input_path')
-                  and len(c.keywords) == 2)
+                  and len(c.args) + len(c.keywords) == 5 and not any(isinstance(x, ast.Starred) for x in c.args) and all(k.arg for k in c.keywords))
         ctx.check('R20.5', ok, "extract-points: extract_dataframe(dataset, read_csv(points), columns, point_dimension=, missing_points=) with the options as parsed", ep,
                   ed[0] if ed else ep.node)
         ok = False
